@@ -529,6 +529,9 @@ def run(prop, obs, tier, seed, records, violations, known_hits, inconclusive):
                 else:
                     new.append((key, inst, shape, conc, what))
             rec["finding_keys"] = sorted({findings.key_mirsym(ob, r[0]) for r in reproduced})
+            if unreproduced:
+                inconclusive.append((ob.id, f"another solver model did not reproduce on the real function: {unreproduced[0][0]} "
+                                     f"inputs={show(unreproduced[0][1])} ({unreproduced[0][2]})"[:400]))
             if new:
                 rec["verdict"] = "counterexample"
                 seen = set()
